@@ -114,6 +114,30 @@ fn method_string() -> impl Strategy<Value = String> {
     ]
 }
 
+/// error names of replies: arbitrary, the four standard ones, and names of other interfaces that
+/// share a standard error's last element (`org.varlink.resolver.InterfaceNotFound` is a real one)
+const ERROR_NAMES: [&str; 12] = [
+    "org.varlink.service.InterfaceNotFound",
+    "org.varlink.service.InvalidParameter",
+    "org.varlink.service.MethodNotFound",
+    "org.varlink.service.MethodNotImplemented",
+    "org.varlink.resolver.InterfaceNotFound",
+    "org.example.net.InvalidParameter",
+    "a.b.MethodNotFound",
+    "io.systemd.Foo.MethodNotImplemented",
+    "org.varlink.service.interfacenotfound",
+    "org.varlink.service.InvalidParameterX",
+    "InterfaceNotFound",
+    "org.varlink.service.",
+];
+
+fn error_name() -> impl Strategy<Value = String> {
+    prop_oneof![
+        3 => method_string(),
+        2 => prop::sample::select(ERROR_NAMES.to_vec()).prop_map(String::from),
+    ]
+}
+
 fn keys() -> impl Strategy<Value = Vec<String>> {
     prop::collection::vec(json_string(), 0..=8)
 }
@@ -183,7 +207,7 @@ fn case_strategy() -> impl Strategy<Value = Case> {
         }
         Case::ReqObj(Value::Object(o))
     });
-    let rep_obj = (flagv(), prop_oneof![Just(None), Just(Some(Value::Null)), method_string().prop_map(|s| Some(json!(s)))], prop_oneof![Just(None), stable_json(3).prop_map(Some)]).prop_map(|(c, e, p)| {
+    let rep_obj = (flagv(), prop_oneof![Just(None), Just(Some(Value::Null)), error_name().prop_map(|s| Some(json!(s)))], prop_oneof![Just(None), stable_json(3).prop_map(Some)]).prop_map(|(c, e, p)| {
         let mut o = Map::new();
         if let Some(c) = c {
             o.insert("continues".into(), c);
@@ -198,7 +222,7 @@ fn case_strategy() -> impl Strategy<Value = Case> {
     });
     prop_oneof![
         4 => (opt_bool(), opt_bool(), opt_bool(), method_string(), opt_params()).prop_map(|(a, b, c, m, p)| Case::Req(a, b, c, m, p)),
-        4 => (opt_bool(), prop_oneof![Just(None), method_string().prop_map(Some)], opt_params()).prop_map(|(c, e, p)| Case::Rep(c, e, p)),
+        4 => (opt_bool(), prop_oneof![Just(None), error_name().prop_map(Some)], opt_params()).prop_map(|(c, e, p)| Case::Rep(c, e, p)),
         1 => ([json_string(), json_string(), json_string(), json_string()], prop::collection::vec(json_string(), 0..6)).prop_map(|(i, v)| Case::Info(i, v)),
         1 => json_string().prop_map(Case::DescArgs),
         1 => prop_oneof![Just(None), json_string().prop_map(Some)].prop_map(Case::DescReply),
@@ -374,7 +398,9 @@ fn systematic(ctx: &mut Ctx) {
         }
     }
     for a in flags {
-        for e in [None, Some("org.x.E".to_string()), Some(String::new())] {
+        let mut names: Vec<Option<String>> = vec![None, Some("org.x.E".to_string()), Some(String::new())];
+        names.extend(ERROR_NAMES.iter().map(|n| Some(n.to_string())));
+        for e in names {
             for p in &params {
                 let cs = Case::Rep(a, e.clone(), p.clone());
                 ctx.case(Some(hash64(&format!("{:?}", cs))));
